@@ -573,6 +573,21 @@ def make_strategy_classes():
                             w.safe(pre, w, self, market, act, order)
                         cl = w.clients[act[2]] if act[2] < len(w.clients) else None
                         out = market.place_order(order, client=cl) if cl is not None else "noorder"
+                elif k == "XC":  # ["XC", kind, i, arg, client index, force]: a request on order i through the
+                    # transaction of ANOTHER client than the order's
+                    order = self.order_at(act[2])
+                    if order is None:
+                        out = "noorder"
+                    else:
+                        if pre:
+                            w.safe(pre, w, self, market, act, order)
+                        with market.transaction(client=w.clients[act[4]]) as t:
+                            if act[1] == "C":
+                                out = t.cancel_order(order, act[3], force=bool(act[5]))
+                            elif act[1] == "U":
+                                out = t.update_order(order, act[3], force=bool(act[5]))
+                            else:
+                                out = t.replace_order(order, act[3], force=bool(act[5]))
                 elif k == "PX":  # ["PX", i]: the strategy hands an order it has ALREADY placed to place_order again
                     order = self.order_at(act[1])
                     if order is None or order.id not in market.blotter:
